@@ -24,7 +24,7 @@ ASSUMPTIONS = [
     "the harness's own parser of the binary format defines 'persisted quantity' (pointer members, padding, walltime, callbacks-used flag excluded)",
     "field mutation writes through offsets published in the exported reb_binary_field_descriptor_list",
 ]
-CLASSES = ["copy/variation", "copy/megno", "copy/merged", "copy/tree", "copy/tree_merged_after_copy", "mutate/scalar", "mutate/array_elem",
+CLASSES = ["copy/variation", "copy/megno", "copy/merged", "copy/tree", "copy/tree_merged_after_copy", "copy/tree_pending_removal_at_copy", "mutate/scalar", "mutate/array_elem",
            "mutate/array_len", "mutate/array_vanish", "mutate/walltime"]
 
 DT_DOUBLE, DT_INT, DT_UINT, DT_UINT32, DT_INT64, DT_UINT64, DT_VEC3D, DT_PARTICLE, DT_POINTER, DT_ALIGNED, \
@@ -150,6 +150,11 @@ def run_copy(case, ctx):
         settle_keep(sim)
         sim.remove(sim.N - 1)
         ctx.cls("pre_remove")
+    if case.get("tree") and case.get("pre_remove") and sim.N > 2:
+        # an unsorted removal while a tree exists only flags the particle (y = NaN) until the next tree update:
+        # the copy is taken in that state
+        sim.remove(sim.N - 1, keep_sorted=False)
+        ctx.cls("tree_pending_removal_at_copy")
     m_src = rb.smap(sim)
     route = case["route"]
     if route == "copy":
